@@ -30,6 +30,8 @@ TRANSPARENT = {
     "alloc::vec::Vec::from", "core::slice::iter", "core::slice::iter_mut", "core::slice::as_ref", "core::str::as_bytes",
     "alloc::str::to_string", "core::array::as_slice", "core::array::as_ref", "alloc::slice::to_vec", "core::slice::to_vec",
     "alloc::slice::<impl [T]>::to_vec", "core::array::iter",
+    "alloc::vec::Vec::into_boxed_slice", "alloc::slice::<impl [T]>::into_vec", "alloc::slice::into_vec", "alloc::string::String::into_boxed_str",
+    "alloc::string::String::into_bytes",
 }
 
 
@@ -324,6 +326,8 @@ class Ev:
             name = e.get("name", str(e["f"]))
             if e.get("adt") in self.prog.newtypes:
                 return t        # a crate-local newtype `struct N(T)` is its content
+            if e.get("adt") in ("alloc::boxed::Box", "core::ptr::unique::Unique") and e["f"] == 0:
+                return t        # `*boxed` is lowered to `*(boxed.0.pointer as *const T)`: what a Box holds is named like the Box
             if t[0] == "agg":
                 ops = t[2]
                 names = t[3] if len(t) > 3 else None
@@ -663,6 +667,20 @@ class Ev:
                     r_ = ("aff", a_[1] // n_, -(-a_[2] // n_))
             if r_ is not None:
                 return r_
+        if len(args) == 1 and strip_generics(path).startswith("core::time::Duration::") and isinstance(args[0], tuple) and len(args[0]) >= 3 and args[0][0] == "agg" \
+                and str(args[0][1]).endswith("time::Duration") and len(args[0][2]) == 2 and args[0][2][0][0] == "int":
+            # accessors of a constant Duration (`const RADIUS: Duration = Duration::from_secs(5)`; RADIUS.as_secs())
+            secs_ = args[0][2][0][1]
+            ns_ = args[0][2][1]
+            while isinstance(ns_, tuple) and len(ns_) >= 3 and ns_[0] == "agg" and len(ns_[2]) == 1:
+                ns_ = ns_[2][0]
+            if isinstance(ns_, tuple) and ns_ and ns_[0] == "int":
+                nm_ = strip_generics(path).split("::")[-1]
+                tot_ = secs_ * 10 ** 9 + ns_[1]
+                v_ = {"as_secs": secs_, "as_millis": tot_ // 10 ** 6, "as_micros": tot_ // 1000, "as_nanos": tot_, "subsec_nanos": ns_[1],
+                      "subsec_micros": ns_[1] // 1000, "subsec_millis": ns_[1] // 10 ** 6}.get(nm_)
+                if v_ is not None:
+                    return ("int", v_)
         if f.get("trait") in ("core::ops::index::Index", "core::ops::index::IndexMut") and len(args) == 2:
             if isinstance(args[1], tuple) and len(args[1]) >= 2 and args[1][0] == "agg" and str(args[1][1]).endswith("RangeFull::RangeFull"):
                 return args[0]      # x[..] is x
